@@ -280,19 +280,28 @@ package route
 //@   fresh
 //@   modifies spawned("(*github.com/grafana/carbon-relay-ng/route.PubSub).run")
 //@   ensures[usable; C14] err == nil ==> typeIs(r, *PubSub) && as(r, *PubSub).flushMaxWait > 0 && as(r, *PubSub).flushMaxSize >= 0 && as(r, *PubSub).buf != nil
+//@   ensures[configuration_stored; C20] err == nil ==> as(r, *PubSub).project == project && as(r, *PubSub).topic == topic && as(r, *PubSub).format == format && as(r, *PubSub).codec == codec
+//@        && as(r, *PubSub).blocking == blocking && as(r, *PubSub).bufSize == bufSize && as(r, *PubSub).flushMaxSize == flushMaxSize && as(r, *PubSub).flushMaxWait == mul64(flushMaxWait, 1000000)
 //@ func NewCloudWatch(key string, matcher matcher.Matcher, awsProfile string, awsRegion string, awsNamespace string, awsDimensions [][]string, bufSize int, flushMaxSize int, flushMaxWait int, storageResolution int64, blocking bool) (r Route, err error)
 //@   property C14
 //@   fresh
 //@   modifies spawned("(*github.com/grafana/carbon-relay-ng/route.CloudWatch).run"), allof("[]*cloudwatch.Dimension")
 //@   ensures[usable; C14] err == nil ==> typeIs(r, *CloudWatch) && as(r, *CloudWatch).flushMaxWait > 0 && as(r, *CloudWatch).buf != nil
+//@   ensures[configuration_stored; C20] err == nil ==> as(r, *CloudWatch).awsProfile == awsProfile && as(r, *CloudWatch).awsRegion == awsRegion && as(r, *CloudWatch).awsNamespace == awsNamespace
+//@        && as(r, *CloudWatch).storageResolution == storageResolution && as(r, *CloudWatch).blocking == blocking && as(r, *CloudWatch).bufSize == bufSize && as(r, *CloudWatch).flushMaxSize == flushMaxSize
+//@        && as(r, *CloudWatch).flushMaxWait == mul64(flushMaxWait, 1000000)
 //@   loop 1:
 //@     invariant[wf] r != nil && r.flushMaxWait > 0 && r.buf != nil && bufSize >= 0
+//@     invariant[stored] r.awsProfile == awsProfile && r.awsRegion == awsRegion && r.awsNamespace == awsNamespace && r.storageResolution == storageResolution && r.blocking == blocking
+//@        && r.bufSize == bufSize && r.flushMaxSize == flushMaxSize && r.flushMaxWait == mul64(flushMaxWait, 1000000)
 //@ func NewKafkaMdm(key string, matcher matcher.Matcher, topic string, codec string, schemasFile string, partitionBy string, brokers []string, bufSize int, orgId int, flushMaxNum int, flushMaxWait int, timeout int, blocking bool, tlsEnabled bool, tlsSkipVerify bool, tlsClientCert string, tlsClientKey string, saslEnabled bool, saslMechanism string, saslUsername string, saslPassword string) (r Route, err error)
 //@   property C14
 //@   merge_paths
 //@   fresh
 //@   modifies spawned("(*github.com/grafana/carbon-relay-ng/route.KafkaMdm).run")
 //@   ensures[usable; C14] err == nil ==> typeIs(r, *KafkaMdm) && as(r, *KafkaMdm).flushMaxWait > 0 && as(r, *KafkaMdm).flushMaxNum >= 0 && as(r, *KafkaMdm).buf != nil && usableSchemas(as(r, *KafkaMdm).schemas)
+//@   ensures[configuration_stored; C20] err == nil ==> as(r, *KafkaMdm).topic == topic && as(r, *KafkaMdm).brokers == brokers && as(r, *KafkaMdm).blocking == blocking && as(r, *KafkaMdm).orgId == orgId
+//@        && as(r, *KafkaMdm).bufSize == bufSize && as(r, *KafkaMdm).flushMaxNum == flushMaxNum && as(r, *KafkaMdm).flushMaxWait == mul64(flushMaxWait, 1000000)
 
 // ---------------------------------------------------------------- grafanaNet: address validation and documented defaults (C14, C20)
 // facts about the two literal suffixes (true of strings; assumed, listed in the evidence)
